@@ -7,6 +7,12 @@ from . import score_common as sc
 from .core import Prop, bits2f
 
 
+def hash_int(case, g):
+    import zlib
+
+    return zlib.crc32(repr((case["kind"], case["h"], case["level"], case["y"], g)).encode())
+
+
 def weighted_quantile_interval(ys, ws, a):
     W = sum(ws)
     srt = sorted(set(ys))
@@ -139,6 +145,17 @@ class C05(Prop):
                 try:
                     sf = sc.make_sf(case["kind"], case["h"], case["level"])
                     r = {"mean": float(sf(np.array(ys).astype(case["ydtype"]), np.full(len(ys), g), None if ws is None else np.array(ws)))}
+                except Exception as e:
+                    r = {"err": exc_class(e)}
+            elif float(g).is_integer() and abs(g) < 2**31 and (hash_int(case, g) % 3 == 0):
+                # a whole-numbered constant forecast handed over in an integer container (observations stay floats)
+                import numpy as np
+                from .core import exc_class
+
+                try:
+                    sf = sc.make_sf(case["kind"], case["h"], case["level"])
+                    zc = [np.full(len(ys), int(g)), [int(g)] * len(ys)][hash_int(case, g) % 2]
+                    r = {"mean": float(sf(np.array(ys, dtype=float), zc, None if ws is None else np.array(ws)))}
                 except Exception as e:
                     r = {"err": exc_class(e)}
             else:
